@@ -8,6 +8,7 @@ import (
 	_ "verif/internal/props/c05"
 	_ "verif/internal/props/c06"
 	_ "verif/internal/props/c07"
+	_ "verif/internal/props/c08"
 	_ "verif/internal/props/c09"
 	_ "verif/internal/props/c15"
 	_ "verif/internal/props/c16"
